@@ -5,6 +5,7 @@ package main
 import (
 	"bytes"
 	"fmt"
+	"io"
 	"iter"
 	"math/rand/v2"
 	"os"
@@ -230,6 +231,7 @@ func init() {
 		Units: []Unit{
 			{Name: "streams", QShards: 2, TShards: 8, Run: c18Streams_},
 			{Name: "memory", TShards: 4, Run: c18Memory},
+			{Name: "faulty", QShards: 2, TShards: 8, Run: c18Faulty},
 		},
 	})
 	register(&Property{
@@ -505,6 +507,30 @@ func checkTraversals(k *K, root *newick.Node, deep bool) {
 	}
 	if d := snapChanged(snap); d != "" {
 		k.Failf("tree-modified", "traversal modified the tree: %s", d)
+		return
+	}
+	// One iterator value ranged over twice must traverse the same tree twice.
+	if len(wantPre) <= 5000 {
+		for _, tr := range []struct {
+			name string
+			seq  iter.Seq[*newick.Node]
+			want []*newick.Node
+		}{{"PreOrder", root.PreOrder(), wantPre}, {"PostOrder", root.PostOrder(), wantPost}} {
+			for pass := 1; pass <= 2; pass++ {
+				var got []*newick.Node
+				for n := range tr.seq {
+					got = append(got, n)
+					if len(got) > len(tr.want)+1 {
+						break
+					}
+				}
+				if !samePtrs(got, tr.want) {
+					k.Failf("traversal-reuse", "pass %d over one %s iterator value yields %d nodes, the reference order has %d (or the order differs)", pass, tr.name, len(got), len(tr.want))
+					return
+				}
+			}
+		}
+		k.Count("iterator_values_ranged_twice", 2)
 	}
 	k.Count("trees_traversed", 1)
 }
@@ -643,4 +669,70 @@ func c19Deep(c *Ctx) {
 			k.Nontrivial([]byte(fmt.Sprint(depth, every, cnt)))
 		})
 	}
+}
+
+// c18Faulty: early stops on streams whose reader fails (possibly returning the
+// failure together with data): the error may already be latched inside the
+// decoder when the consumer stops on an earlier, good item.
+func c18Faulty(c *Ctx) {
+	per := c.N(60, 2500)
+	idx := int64(0)
+	for _, it := range c18Streams {
+		if it.file {
+			continue
+		}
+		for i := 0; i < per; i++ {
+			c.Case(idx, func(k *K) {
+				r := k.Rand()
+				x := wellFormed(r, it.format, 1+r.IntN(8))
+				if len(x) > 3000 {
+					x = x[:3000]
+				}
+				var kk int
+				switch r.IntN(3) {
+				case 0:
+					kk = r.IntN(len(x) + 1)
+				case 1: // right before a line terminator
+					nl := bytes.IndexByte(x[r.IntN(len(x)+1):], '\n')
+					kk = max(0, min(len(x), len(x)-len(x[r.IntN(len(x)+1):])+nl))
+				default:
+					kk = len(x)
+				}
+				mode := faultMode{forever: r.IntN(2) == 0, bytewise: r.IntN(4) == 0, withData: r.IntN(2) == 0}
+				k.Input("iterator", it.name)
+				k.Input("input", func() string { return describeText(x) })
+				k.Input("fault_offset", kk)
+				k.Input("fault_mode", mode)
+				before := k.c.Rep.Counters["items_"+it.name]
+				stopMonitor(k, it.name, func() rawIter {
+					fr := &faultReader{data: x, k: kk, bytewise: mode.bytewise, forever: mode.forever, withData: mode.withData && kk > 0, budget: len(x) + 10000}
+					return streamOver(it.name, fr)
+				}, stopOpts{errorLast: it.errorLast, limit: len(x) + 10})
+				k.Count("faulty_stream_cases", 1)
+				if k.c.Rep.Counters["items_"+it.name]-before >= 2 {
+					k.Nontrivial([]byte(it.name), x, []byte(fmt.Sprint(kk, mode)))
+				}
+			})
+			idx++
+		}
+	}
+}
+
+// streamOver builds the named Reader iterator over an arbitrary io.Reader.
+func streamOver(name string, rd io.Reader) rawIter {
+	switch name {
+	case "fasta.Reader":
+		return raw2(fasta.Reader(rd), fastaKey)
+	case "fastq.Reader":
+		return raw2(fastq.Reader(rd), fastqKey)
+	case "sam.Reader":
+		return raw2(sam.Reader(rd), samKey)
+	case "sam.ReaderHeader":
+		return raw2(sam.ReaderHeader(rd), samOrHeaderKey)
+	case "bed.Reader":
+		return raw2(bed.Reader(rd), bedKey)
+	case "newick.Reader":
+		return raw2(newick.Reader(rd), treeKey)
+	}
+	panic("streamOver: unknown iterator " + name)
 }
